@@ -252,8 +252,8 @@ def _render_ids(tree):
 
 @st.composite
 def method_lines(draw, mix: str, deep: bool = False):
-    """-> list of [id, text].  mix in wf | broken | odd | hostile | mixed | fixable"""
-    cfg = CFG_FIX if mix == "fixable" else (CFG_DEEP if deep else CFG_FULL)
+    """-> list of [id, text].  mix in wf | broken | odd | hostile | mixed | fixable | joint (several lines failing in one tick)"""
+    cfg = CFG_FIX if mix in ("fixable", "joint") else (CFG_DEEP if deep else CFG_FULL)
     lines = _render_ids(draw(G.program(cfg)))
     if mix == "wf":
         return lines
@@ -277,6 +277,8 @@ def method_lines(draw, mix: str, deep: bool = False):
         n_bad, n_unj, n_host = draw(st.sampled_from([1, 1, 1, 2])), 0, 0
     elif mix == "broken":
         n_bad, n_unj, n_host = draw(st.integers(1, 3)), draw(st.integers(0, 3)), 0
+    elif mix == "joint":
+        n_bad, n_unj, n_host = 0, 0, 0
     elif mix == "odd":
         n_bad, n_unj, n_host = 0, draw(st.integers(1, 4)), 0
     elif mix == "hostile":
@@ -292,6 +294,18 @@ def method_lines(draw, mix: str, deep: bool = False):
         if draw(st.integers(0, 7)) == 0 and mix != "fixable" and not items[0][1].startswith("Macro"):
             items = [(items[0][0], "%s %s" % (draw(st.sampled_from(["0", "0.2", "0.5"])), items[0][1]))] + items[1:]
         insert(pos, items, ind)
+    if mix == "joint" or (mix in ("broken", "mixed") and draw(st.integers(0, 3)) == 0):
+        # several instructions failing in ONE tick: interrupts with the same time condition whose bodies start with a failing line
+        thr = draw(st.sampled_from(["0.8", "1.5", "2.5"]))
+        group = []
+        for _ in range(draw(st.integers(2, 3))):
+            items = draw(bad_item(100 + fresh()))
+            if items[0][1].startswith("Macro: R"):
+                items = [(0, "Wait: w%d" % (100 + fresh()))]
+            group.append((0, "%s: Run Time > %s s" % (draw(st.sampled_from(["Watch", "Watch", "Alarm"])), thr)))
+            group.extend((d + 1, t) for d, t in items)
+        cands = [i for i in range(1, len(lines) + 1) if indent_at(i) == 0]
+        insert((cands[0] if mix == "joint" else draw(st.sampled_from(cands))) if cands else len(lines), group, 0)
     for _ in range(n_unj):
         pos = draw(st.integers(1, len(lines)))
         text = draw(broken_unjudged(fresh()))
@@ -329,7 +343,7 @@ _USER = st.sampled_from(["toggle-pause"] * 6 + ["toggle-hold"] * 3 + ["Pause", "
 _USER_SOFT = st.sampled_from(["toggle-pause"] * 3 + ["toggle-hold"] * 2 + ["Open1", "Open2"])
 
 
-MIXES = ("wf", "broken", "broken", "odd", "odd", "hostile", "mixed", "mixed", "fixable", "fixable")
+MIXES = ("wf", "broken", "broken", "odd", "odd", "hostile", "mixed", "mixed", "fixable", "fixable", "joint")
 
 
 @st.composite
@@ -341,8 +355,23 @@ def campaign(draw, mixes=MIXES, boom: bool = False, deep: bool = False):
         ind = split_indent(lines[pos][1])[0] if pos < len(lines) else 0
         lines.insert(pos, ["xb", " " * (ind or 0) + "Boom: x"])
     steps = []
-    quiet = mix == "fixable"
+    quiet = mix in ("fixable", "joint")
     n = 0
+    reissue = boom and draw(st.integers(0, 4)) == 0
+    if reissue:
+        # a long running command that is issued again while its previous instance still executes: body of a re-arming Alarm, or a
+        # macro called twice; the schedule below gets scripted command faults
+        k = 800 + draw(st.integers(0, 99))
+        cmd = draw(st.sampled_from(["Slow", "Slow", "OvA"]))
+        if draw(st.booleans()):
+            grp = [["xr1", "Alarm: In2 >= 0"], ["xr2", "    %s: %d.%03d" % (cmd, draw(st.integers(6, 9)), k)]]
+        else:
+            grp = [["xr1", "Macro: M9"], ["xr2", "    %s: %d.%03d" % (cmd, draw(st.integers(3, 6)), k)], ["xr3", "Call macro: M9"]]
+            for j in range(draw(st.integers(1, 2))):
+                if draw(st.booleans()):
+                    grp.append(["xr%d" % (5 + 2 * j), "Mark: mr%d" % j])
+                grp.append(["xr%d" % (4 + 2 * j), "Call macro: M9"])
+        lines[1:1] = grp
     for _ in range(draw(st.integers(3, 18 if deep else 10))):
         for _ in range(draw(st.integers(0, 1 if quiet else 2))):
             n += 1
@@ -371,6 +400,8 @@ def campaign(draw, mixes=MIXES, boom: bool = False, deep: bool = False):
                 steps.append(["edit", {"op": op, "pos": draw(st.integers(0, 30)), "text": text}])
         for _ in range(draw(st.integers(1, 7))):
             steps.append(["tick"])
+            if reissue and (not any(x[0] == "fault" for x in steps) or draw(st.integers(0, 9)) == 0):
+                steps.append(["fault", draw(st.integers(1, 8))])
     for _ in range(draw(st.integers(0, 12))):   # drain
         steps.append(["tick"])
     epilogue = draw(st.sampled_from(["fix", "fix", "fix", "stop"] if mix == "fixable" else ["stop", "stop", "fix", "none"]))
@@ -407,6 +438,9 @@ def valid(case) -> bool:
             elif s[0] == "user":
                 if s[1] not in USER_OPS:
                     return False
+            elif s[0] == "fault":
+                if not (len(s) == 2 and isinstance(s[1], int) and not isinstance(s[1], bool) and 1 <= s[1] <= 20):
+                    return False
             elif s[0] == "inject":
                 if not isinstance(s[1], str) or len(s[1]) > 400 or any(0xD800 <= ord(c) <= 0xDFFF for c in s[1]):
                     return False
@@ -442,7 +476,7 @@ def valid(case) -> bool:
 class Rec:
     """one tick: state before / after, events raised during the tick, method state, optional run log"""
     __slots__ = ("no", "pre_state", "pre_status", "state", "status", "raised", "events", "started", "executed", "failed", "ms_exc",
-                 "runlog", "runlog_exc", "gap", "epoch", "merged", "injected", "stop_pending", "phase", "lines", "foreign", "runlog_pat", "gap_events", "err_node")
+                 "runlog", "runlog_exc", "gap", "epoch", "merged", "injected", "stop_pending", "phase", "lines", "foreign", "runlog_pat", "gap_events", "err_node", "interp_gate")
 
 
 def innermost_frame(ex: BaseException) -> str:
@@ -510,6 +544,23 @@ class Campaign:
         self.foreign = False     # a user UOD command or a cancel/force request was issued (errors need not stem from a method line)
         self.edit_no = 0
         self.phase = "main"
+        # scripted fault of a long-running UOD command (step ["fault", k], C15 only): the exec callback of a Slow/OvA/OvB instance
+        # raises in its iteration k (k >= 1, i.e. an instance that is already running).  Installed from the outside on the command
+        # builders of the harness unit.
+        self.fault_armed = 0
+        for name in ("Slow", "OvA", "OvB"):
+            builder = self.h.uod.command_factories[name]
+            builder.exec_fn = self._faulting(builder.exec_fn)
+
+    def _faulting(self, orig):
+        def exec_fn(cmd, value):
+            if self.fault_armed and cmd.get_iteration_count() == self.fault_armed:
+                self.fault_armed = 0
+                self.h.events.append((self.h.tick_no, "cmd", cmd.name, cmd.instance_id, "fault", value, cmd.get_iteration_count()))
+                self.info["fault_raised"] = self.info.get("fault_raised", 0) + 1
+                raise RuntimeError("scripted device fault in command %s" % cmd.name)
+            return orig(cmd, value)
+        return exec_fn
 
     # -- steps ---------------------------------------------------------------------------------------------
     def _names_pending(self):
@@ -601,6 +652,9 @@ class Campaign:
         r.pre_state = h.state
         r.pre_status = str(h.tagv("Method Status"))
         pend = self._names_pending()
+        e = h.engine
+        # the engine's own gate for running the interpreter in the coming tick (engine.py, Engine.tick)
+        r.interp_gate = bool(e._runstate_started and not e._runstate_paused and not e._runstate_holding and not e._runstate_stopping)
         r.gap_events = h.events[self.ev_idx:]      # events caused by requests between the ticks (not part of the tick)
         self.ev_idx = len(h.events)
         o = h.tick(inc)
@@ -648,6 +702,10 @@ class Campaign:
                 self.h.set_inputs(**s[1])
             elif s[0] == "edit":
                 self.edit(s[1])
+            elif s[0] == "fault":
+                self.fault_armed = int(s[1])
+                self.foreign = True
+                self.gap.append(("fault", s[1]))
             else:
                 self.cancel_force(s[0], s[1])
         return True
